@@ -103,7 +103,7 @@ class VttCue:
 
   def is_only_whitespace_or_empty(self):
     """Returns whether the paragraph text contains only whitespace or is empty"""
-    return len(self._text) == 0 or self._text.isspace()
+    return len(self._plain) == 0 or self._plain.isspace()
 
   def normalize_eol(self):
     """Remove line breaks at the beginning and end of the paragraph, and replace
@@ -113,6 +113,11 @@ class VttCue:
   def append_text(self, text: str):
     """Appends text to the paragraph"""
     self._text += text
+    self._plain += text
+
+  def append_markup(self, markup: str):
+    """Appends a tag, which is not text, to the paragraph"""
+    self._text += markup
 
   def to_string(self) -> str:
     """Returns the VTT paragraph as a formatted string"""
